@@ -864,3 +864,35 @@ func (cfg *LifeCfg) GenMigrationAcrossRotation(t *rapid.T, s *Sim) *Action {
 	}
 	return nil
 }
+
+// GenFault: a designated fishman (accounts 5 and 6 in the base genesis, registered as nodes in the
+// default world) reports a stored shard as faulty, or the accused provider reports it recovered.
+func (cfg *LifeCfg) GenFault(t *rapid.T, s *Sim) *Action {
+	existing := faultsOf(s.Last)
+	if len(existing) > 0 && rapid.IntRange(0, 3).Draw(t, "recover") == 0 {
+		ids := chain.SortedStr(existing)
+		f := existing[ids[rapid.IntRange(0, len(ids)-1).Draw(t, "fault")]]
+		a := NewAction("recover_faults", s.acctOf(f.Provider))
+		a.Target = a.Creator
+		a.Faults = []FaultEntry{{DataId: f.DataId, OrderId: f.OrderId, ShardId: f.ShardId, CommitId: f.CommitId, Provider: a.Creator}}
+		return a
+	}
+	var cands []ordertypes.Shard
+	for _, sh := range sortedShards(s.Last) {
+		if sh.Status == ordertypes.ShardCompleted {
+			cands = append(cands, sh)
+		}
+	}
+	if len(cands) == 0 {
+		return nil
+	}
+	sh := cands[rapid.IntRange(0, len(cands)-1).Draw(t, "shard")]
+	o, ok := s.Last.Orders[sh.OrderId]
+	if !ok {
+		return nil
+	}
+	a := NewAction("report_faults", rapid.SampledFrom([]int{5, 6}).Draw(t, "fishman"))
+	a.Target = s.acctOf(sh.Sp)
+	a.Faults = []FaultEntry{{DataId: o.DataId, OrderId: o.Id, ShardId: sh.Id, CommitId: "reported-commit", Provider: a.Target}}
+	return a
+}
